@@ -381,7 +381,15 @@ class DiagLayer:
 
         for service in candidate_services:
             try:
-                decoded_messages.append(service.decode_message(message))
+                decoded_message = service.decode_message(message)
+                if decoded_message.coding_object is None:
+                    # in non-strict mode, services return a placeholder
+                    # if they cannot decode the message. Treat this like
+                    # in strict mode, i.e., try the global negative
+                    # responses
+                    raise DecodeError(f"The service {service.short_name} cannot decode "
+                                      f"the message {message.hex()}")
+                decoded_messages.append(decoded_message)
             except DecodeError as e:
                 # check if the message can be decoded as a global
                 # negative response for the service
